@@ -23,6 +23,7 @@ TOKEN_SETS = [
     (("WETH", 18), ("USDT", 6)),
     (("DAI", 18), ("WETH", 18)),
     (("WBTC", 8), ("USDC", 6)),
+    (("WETH", 18), ("STETH", 18)),  # parity pair: ticks around 0
 ]
 
 
@@ -41,7 +42,8 @@ def generate(seed: int, tier: str = "quick") -> dict:
     if rw.random() < 0.5:
         t0, t1 = t1, t0
     quote = rw.choice([t0[0], t1[0]])
-    mw = U.gen_uni_market(rw, "uni0", n, t0, t1, quote)
+    parity = "STETH" in (t0[0], t1[0])
+    mw = U.gen_uni_market(rw, "uni0", n, t0, t1, quote, base_price=rw.uniform(0.985, 1.015) if parity else None)
     sp = U.spacing_of(mw["fee"])
     ticks = mw["closeTick"]
     # per-bar close ticks on the resampled grid (what the loop will see)
@@ -98,7 +100,7 @@ def generate(seed: int, tier: str = "quick") -> dict:
     for _ in range(nfault):
         if nb < 2:
             break
-        kind = rf.choice(["tick_on_bound", "tick_on_bound", "tick_jump", "tick_stationary", "zero_volume", "pool_liq_zero", "cross_in"])
+        kind = rf.choice(["tick_on_bound", "tick_on_bound", "tick_jump", "tick_stationary", "zero_volume", "pool_liq_zero", "cross_in"] + (["tick_zero"] * 4 if parity else []))
         bar = rf.randint(1, nb - 1)
         i = close_of(bar)
         lo, hi = rf.choice(ranges)
@@ -110,6 +112,8 @@ def generate(seed: int, tier: str = "quick") -> dict:
                 ticks[close_of(bar + 1)] = rf.choice([lo - rf.randint(1, 50) * sp, hi + rf.randint(1, 50) * sp])
         elif kind == "cross_in":
             ticks[i] = rf.randint(lo, max(lo, hi - 1))
+        elif kind == "tick_zero":
+            ticks[i] = 0  # a close exactly on tick 0: the next bar's path starts at 0, which is a tick like any other
         elif kind == "tick_stationary":
             ticks[i] = ticks[close_of(bar - 1)]
         elif kind == "zero_volume":
@@ -126,8 +130,12 @@ def generate(seed: int, tier: str = "quick") -> dict:
     for _ in range(nother):
         b = rp.randint(0, nb - 1)
         phase = rp.choice(["before_bar", "trigger", "on_bar", "on_bar", "after_bar"])
-        kind = rp.choice(["add_unrelated", "add_unrelated", "remove_part", "remove_all_of", "collect", "buy", "sell", "add_same", "lend_out", "take_back", "add_then_refused"])
+        kind = rp.choice(["add_unrelated", "add_unrelated", "remove_part", "remove_all_of", "collect", "buy", "sell", "add_same", "lend_out", "take_back", "add_then_refused", "read_balance", "read_balance"])
         cur = ticks[close_of(b)]
+        if kind == "read_balance":
+            # a read-only look at the market balance (or the whole account) in the middle of a bar
+            program.append({"bar": b, "phase": rp.choice(["before_bar", "trigger", "on_bar"]), "op": rp.choice(["uni.read_balance", "c08.read_account"]), "m": "uni0", "a": {}})
+            continue
         if kind == "add_then_refused":
             # an accepted liquidity change followed, in the same phase of the same bar, by a write the pool refuses: the
             # refused call must not take back what the accepted one earned (the bar's second status refresh)
@@ -242,6 +250,7 @@ class FeeOracle(Oracle):
             self.v1.append(sum(int(mw["inAmount1"][i]) for i in idx))
             self.lpool.append(int(mw["currentLiquidity"][idx[-1]]))
         self.fee_rate = Fraction(Decimal(str(mw["fee"]))) / 100
+        self.pending_at_end = {}
         self.before = None
         self.d0 = int(sim.world["tokens"][mw["token0"]])
         self.d1 = int(sim.world["tokens"][mw["token1"]])
@@ -255,6 +264,10 @@ class FeeOracle(Oracle):
                 return
             self._check(sim, bar, m)
             self.before = None
+        elif phase == "after_bar" and pos == "end":
+            # what the account row of this bar must report as uncollected: the pending amounts of the positions the pool owns
+            own = [p for p in m.positions.values() if not p.transferred]
+            self.pending_at_end[bar] = (sum((Fraction(p.pending_amount0) for p in own), Fraction(0)), sum((Fraction(p.pending_amount1) for p in own), Fraction(0)))
 
     def _check(self, sim, bar, m):
         if bar >= len(self.labels):
@@ -323,12 +336,37 @@ class FeeOracle(Oracle):
         )
 
     def finish(self, sim):
+        m = sim.markets["uni0"]
+        t0_is_base = self.mw["quote"] != self.mw["token0"]
+        for bar, (p0, p1) in sorted(self.pending_at_end.items()):
+            if bar >= len(sim.actuator.account_status):
+                continue
+            ms = sim.actuator.account_status[bar].market_status
+            if m.market_info not in ms:
+                continue
+            bal = ms[m.market_info]
+            want_base, want_quote = (p0, p1) if t0_is_base else (p1, p0)
+            for name, got, want in (("base_uncollected", bal.base_uncollected, want_base), ("quote_uncollected", bal.quote_uncollected, want_quote)):
+                if not _close(Fraction(got), want, want):
+                    sim.violate("c08.reported_uncollected", name, bar=bar, got=_f(Fraction(got)), want=_f(want))
+                    break
+            else:
+                continue
+            break
         if sim.crash is not None:
             name = type(sim.crash).__name__
             if name in ("InvalidOperation", "DivisionByZero", "ZeroDivisionError", "DivisionUndefined"):
                 sim.count("probe:undefined_share_crash")
                 return
             sim.violate("c08.crash", name + "@" + "/".join(sim.crash_where[-1:]), msg=str(sim.crash)[:200])
+
+
+from ..sim import op as _op  # noqa: E402
+
+
+@_op("c08.read_account")
+def _read_account(sim, m, a):
+    return lambda: sim.broker.get_account_status(sim.prices_now()).net_value
 
 
 def path_weight(cp, c, lo, hi) -> Fraction:
